@@ -52,6 +52,7 @@ type World struct {
 	Thing *Thing
 	Opt   *Item
 	Flaky bool // the flaky resolver fails at this version
+	Safe  bool // ... with an error marked safe to show to the client
 }
 
 const MaxVer = 7
@@ -60,7 +61,7 @@ var Table = []World{
 	{Items: []*Item{{1, 0}, {2, 0}}, N: 0, Thing: &Thing{P: &P{1, "p"}}, Opt: &Item{9, 0}},
 	{Items: []*Item{{2, 0}, {1, 1}}, N: 0, Thing: &Thing{P: &P{1, "q"}}, Opt: nil, Flaky: true},
 	{Items: []*Item{{3, 0}}, N: 1, Thing: &Thing{R: &R{1, 5}}, Opt: &Item{9, 1}},
-	{Items: []*Item{{3, 0}, {1, 1}, {2, 2}}, N: 1, Thing: nil, Opt: &Item{8, 1}, Flaky: true},
+	{Items: []*Item{{3, 0}, {1, 1}, {2, 2}}, N: 1, Thing: nil, Opt: &Item{8, 1}, Flaky: true, Safe: true},
 	{Items: nil, N: 2, Thing: &Thing{R: &R{2, 5}}, Opt: &Item{8, 1}},
 	{Items: []*Item{{2, 2}, {3, 0}, {1, 1}, {4, 0}}, N: 2, Thing: &Thing{P: &P{2, "p"}}, Opt: nil, Flaky: true},
 	{Items: []*Item{{2, 2}, {3, 0}, {1, 1}, {4, 0}}, N: 2, Thing: &Thing{P: &P{2, "p"}}, Opt: nil},
@@ -276,6 +277,9 @@ func (h *harness) schema() *graphql.Schema {
 	})
 	q.FieldFunc("flaky", func(ctx context.Context) (int64, error) {
 		w, _ := h.world(ctx)
+		if w.Flaky && w.Safe {
+			return 0, graphql.NewSafeError("the flaky resolver failed (safe to show)")
+		}
 		if w.Flaky {
 			return 0, errors.New("secret: flaky resolver failed")
 		}
